@@ -141,6 +141,7 @@ Build(st, sl, rg) ==
     [] st.op = "Join"       -> WStack(JoinV(SlotVals(st.src, sl)))
     [] st.op = "JoinPkg"    -> JoinV(SlotVals(st.src, sl))             \* join.Join, no stack
     [] st.op = "GoJoin"     -> GoJoinV(SlotVals(st.src, sl))
+    [] st.op = "UMulti"     -> V("uMulti", st.s, <<>>, SlotVals(st.src, sl), <<>>)
     [] st.op = "GoWrap2"    -> V("goWrapErrors", Text(e) \o st.s \o Text(x), <<>>, <<e, x>>, <<>>)
     [] st.op = "GrpcStatus" -> V("grpcStatus", <<"L_rpcNotFound">> \o st.s, <<>>, <<>>, <<>>)
     \* ---- transfer
@@ -184,13 +185,15 @@ PartsAllStr(ps) == IF ps = <<>> THEN <<>>
                    ELSE (IF ps[1].k \in {"lit", "safe", "arg"} THEN <<ps[1].s>> ELSE <<>>) \o PartsAllStr(Tail(ps))
 
 SUnsafeOps == {"GoNew", "PkgNew", "ULeaf", "GrpcStatus", "WithHint", "WithDetail", "HandledWithMessage",
-               "HandledInDomainWithMessage", "PkgWithMessage", "PkgWrap", "UWrap", "GoWrap", "GoWrap2",
+               "HandledInDomainWithMessage", "PkgWithMessage", "PkgWrap", "UWrap", "GoWrap", "GoWrap2", "UMulti",
                "Unimplemented"}
 SSafeOps   == {"New", "Wrap", "WithMessage", "WithDomain", "HandledInDomain", "OsSyscallError"}
 
 \* words the step itself introduces
+\* (the ErrorKeyMarker of a type is safe by declaration: it travels in the type mark)
+KeyWrap(st) == st.op = "UWrap" /\ st.a[1] = <<"uKeyWrap">>
 StepU(st, sl) ==
-  (IF st.op \in SUnsafeOps THEN WordsIn(st.s) ELSE {})
+  (IF st.op \in SUnsafeOps /\ ~KeyWrap(st) THEN WordsIn(st.s) ELSE {})
   \cup PartsU(st.parts)
   \cup (IF st.op = "GoWrap" \/ (st.op = "ULeaf" /\ st.a[1] # <<"uSafeDetLeaf">>) THEN WordsInAll(st.a) ELSE {})
   \cup (IF st.op = "WithContextTags"
@@ -199,7 +202,7 @@ StepU(st, sl) ==
   \cup (IF st.op = "Mark" /\ Len(st.src) = 2 /\ ~IsNil(sl[st.src[1]]) /\ ~IsNil(sl[st.src[2]])
         THEN WordsIn(Text(sl[st.src[2]])) ELSE {})
 StepS(st) ==
-  (IF st.op \in SSafeOps THEN WordsIn(st.s) ELSE {})
+  (IF st.op \in SSafeOps \/ KeyWrap(st) THEN WordsIn(st.s) ELSE {})
   \cup PartsS(st.parts)
   \cup (IF st.op \in {"WithTelemetry", "WithIssueLink", "Unimplemented", "HandledInDomainWithMessage"}
         THEN WordsInAll(st.a) ELSE {})
@@ -240,7 +243,8 @@ TaintOf(st, sl, tn, res) ==
   ELSE LET src == Sources(st) IN
        [u |-> StepU(st, sl) \cup UNION {tn[i].u : i \in src},
         s |-> StepS(st) \cup ExtraS(st, sl, tn) \cup UNION {tn[i].s : i \in src},
-        r |-> StepS(st) \cup UNION {tn[i].r : i \in src},
+        \* (C12 does not list a user type's key marker among what reports must retain)
+        r |-> (IF KeyWrap(st) THEN {} ELSE StepS(st)) \cup UNION {tn[i].r : i \in src},
         h |-> StepH(st) \/ \E i \in src : tn[i].h,
         mk |-> StepMk(st) \/ \E i \in src : tn[i].mk,
         dv |-> \E i \in src : tn[i].dv]
@@ -253,7 +257,7 @@ ConstructorOps ==
    "Handled", "Opaque", "HandledWithMessage", "HandledInDomain", "HandledInDomainWithMessage",
    "HandleAsAssertionFailure", "NewAssertionErrorWithWrappedErrf", "WrapWithHTTPCode",
    "WrapWithGrpcCode", "GoWrap", "PkgWithMessage", "PkgWithStack", "PkgWrap", "OsPathError",
-   "OsLinkError", "OsSyscallError", "UWrap", "Join", "JoinPkg", "GoJoin", "GoWrap2", "Hop",
+   "OsLinkError", "OsSyscallError", "UWrap", "Join", "JoinPkg", "GoJoin", "GoWrap2", "UMulti", "Hop",
    "Copy", "Clear", "DecodeFault", "DecodeFuzz", "StackCall", "GrpcStatus", "Grpc"}
 
 \* A step is well-formed for the current state (enabling condition).
@@ -262,7 +266,7 @@ Enabled(st, sl) ==
   /\ st.dst \in 1..NSlots
   /\ \A i \in 1..Len(st.src) : st.src[i] \in 1..NSlots
   /\ \A i \in 1..Len(st.parts) : st.parts[i].k \in {"err", "w"} => st.parts[i].r \in 1..NSlots
-  /\ st.op \in {"GoWrap", "OsPathError", "OsLinkError", "OsSyscallError", "UWrap", "GoWrap2"}
+  /\ st.op \in {"GoWrap", "OsPathError", "OsLinkError", "OsSyscallError", "UWrap", "GoWrap2", "UMulti"}
         => \A i \in 1..Len(st.src) : ~IsNil(sl[st.src[i]])
 
 ---------------------------------------------------------------------------
